@@ -49,6 +49,8 @@ def project(raw, napp):
 
 def oracle(prog, s, cl, raw):
     ev = G.events(raw)
+    m = re.search(r'^(\d+) UAF (\S+)', raw, flags=re.M)
+    if m: return 'thread %s accessed %s: a call_rcu_data structure that had already been released (helper freed under a caller that had selected it)' % (m.group(1), m.group(2))
     if 'DEADLOCK' in raw: return 'stuck state: an application thread is blocked for ever (rcu_barrier / call_rcu_data_free never returns)'
     if 'STEP LIMIT' in raw: return 'live-lock: step limit reached'
     callidx, retcall, cbcall, cbret = {}, {}, {}, {}
@@ -89,10 +91,10 @@ def oracle(prog, s, cl, raw):
 def build(ctx, name='scen_callrcu', defs=()):
     return build_scenario(ctx, name, 'scen_callrcu.c', extra_src=G.SRCS, defs=G.DEFS + list(defs))
 
-def run_scen(ctx, progs, n, pid, driver):
+def run_scen(ctx, progs, n, pid, driver, extra_cases=()):
     impl = build(ctx)
     if not impl: return
-    cases = [c for c in corpus(pid) if len(c) == 2]
+    cases = [c for c in corpus(pid) if len(c) == 2] + list(extra_cases)
     for prog in progs[:3 if ctx.quick() else len(progs)]:
         th = [str(i) for i in range(prog.count('/') + 1)]
         allth = th + [str(len(th) + i) for i in range(2)]      # helper threads get the next ids
